@@ -15,7 +15,7 @@
       receiver's address first and the arguments in declared order, returning the callee's result. *)
 From Coq Require Import List NArith ZArith Bool String Lia.
 From PyxisModel Require Import Base Grammar SemTypes Registry Sem SemLemmas FunctionLemmas
-     VftableLemmas PlacementLemmas RustExec ExecLemmas WholeBuild.
+     VftableLemmas PlacementLemmas RustExec ExecLemmas WholeBuild Examples.
 Import ListNotations.
 Local Open Scope N_scope.
 
@@ -128,3 +128,14 @@ Theorem C04_whole_build : forall order ptr mods st0 st p it0 gd td0 it r s rest 
     vt_functions vt = fs /\ vt_type vt = TConstPtr (TRaw vp).
 Proof. exact whole_build_vftable. Qed.
 Print Assumptions C04_whole_build.
+
+(** non-vacuity of [C04_whole_build]: the type [Base] of Examples.v (a vftable block with an indexed
+    function) is an input item of an accepted, collision-free build *)
+Example C04_whole_build_example :
+  exists st0 st it0 gd td0 it r s rest gfs,
+    input_state 4 Examples.ex_mods = Ok st0 /\ collision_freeb (st_reg st0) = true /\
+    pyxis_resolve (hook_schedule []) 4 Examples.ex_mods = BOk st /\
+    reg_get (st_reg st0) ["m"; "Base"]%string = Some it0 /\ it_state it0 = Unresolved gd /\ gi_inner gd = GIType td0 /\
+    reg_get (st_reg st) ["m"; "Base"]%string = Some it /\ it_state it = Resolved r /\
+    gt_stmts td0 = s :: rest /\ gs_field s = GVftable gfs /\ List.length gfs = 2%nat.
+Proof. vm_compute. do 10 eexists. repeat split; reflexivity. Qed.
